@@ -1,6 +1,7 @@
 package main
 
 import (
+	"context"
 	"encoding/json"
 	"fmt"
 	"math"
@@ -286,11 +287,13 @@ func c12Run(cfg *c12Config, sc *c12Scratch) []string {
 	if cfg.BPs {
 		cpu.BreakPoints = map[uint16]struct{}{0x7777: {}}
 	}
-	var err error
-	func() {
-		defer func() { pan = recover() }()
-		err = cpu.Run(bgCtx)
-	}()
+	err, pan, stuck := c12RunBackstop(cpu)
+	if err == errC12Skipped {
+		return nil
+	}
+	if stuck {
+		return []string{fmt.Sprintf("Run did not return within %v although the Step-driven twin halts (no memory access budget was exhausted: the loop makes no progress); PC=%04X", c12Backstop, cpu.PC)}
+	}
 	if cfg.BPs && pan == nil && err == z80.ErrBreakPoint && cpu.PC == 0x7777 {
 		return nil // the program wandered onto the breakpoint: not this check's subject
 	}
@@ -636,16 +639,16 @@ func checkC12(c *Ctx) {
 		cpu := z80.CPU{Memory: cm, IO: dev}
 		cpu.PC, cpu.SP, cpu.IM = 0x0100, 0x8000, im
 		cpu.IR.Hi = 0x20
-		var pan interface{}
-		var err error
-		func() {
-			defer func() { pan = recover() }()
-			err = cpu.Run(bgCtx)
-		}()
+		err, pan, stuck := c12RunBackstop(&cpu)
 		n++
-		if pan != nil || err != nil || !cpu.HALT {
+		if err == errC12Skipped {
+			continue
+		}
+		if stuck || pan != nil || err != nil || !cpu.HALT {
 			what := fmt.Sprintf("%v", pan)
-			if _, ok := pan.(watchdogPanic); ok {
+			if stuck {
+				what = fmt.Sprintf("Run did not return within %v", c12Backstop)
+			} else if _, ok := pan.(watchdogPanic); ok {
 				what = "Run did not return (deterministic watchdog: 20000 memory accesses for a program of 4 instructions and two handlers that return at once)"
 			}
 			c.Report("c12/line-device", int64(im), "", map[string]interface{}{"im": im}, []string{fmt.Sprintf("IM %d; CPU.IO is a device that also implements z80.INT and z80.NMI and holds its request lines until ReturnNMI/ReturnINT: %s; error %v, HALT=%v, PC=%04X, CheckNMI called %d times, CheckINT %d, ReturnNMI %d, ReturnINT %d", im, what, err, cpu.HALT, cpu.PC, dev.nCheckNMI, dev.nCheckINT, dev.nRetNMI, dev.nRetINT)})
@@ -825,17 +828,19 @@ func checkC12(c *Ctx) {
 					cp := *r
 					cpu.Interrupt = &cp
 				}
-				var pan interface{}
-				var err error
-				func() {
-					defer func() { pan = recover() }()
-					err = cpu.Run(bgCtx)
-				}()
+				err, pan, stuck := c12RunBackstop(&cpu)
 				n++
-				sc0.release(cm, 0, 0x76, 0x0100, 3)
-				if pan != nil || err != nil || !cpu.HALT {
+				if !stuck {
+					sc0.release(cm, 0, 0x76, 0x0100, 3)
+				}
+				if err == errC12Skipped {
+					continue
+				}
+				if stuck || pan != nil || err != nil || !cpu.HALT {
 					what := fmt.Sprintf("returned %v, HALT=%v", err, cpu.HALT)
-					if wp, ok := pan.(watchdogPanic); ok {
+					if stuck {
+						what = fmt.Sprintf("did not return within %v (the loop makes no memory access: no progress)", c12Backstop)
+					} else if wp, ok := pan.(watchdogPanic); ok {
 						what = fmt.Sprintf("did not return (deterministic watchdog after %d memory accesses)", wp.n)
 					} else if pan != nil {
 						what = fmt.Sprintf("panicked: %v", pan)
@@ -862,6 +867,54 @@ func checkC12(c *Ctx) {
 	c.Sample(c12Config{Mem: 5, IO: 1, IM: 0, PC: 0xFFFE, SP: 0xFFFF, Req: 16, IFF1: true, Bytes: "ED B0"})
 	c.Assume("'hang' is decided by a deterministic access-count watchdog (4096 memory accesses per Step, 160000 per Run of a program whose Step-driven twin halts within 20000 Steps), not by wall-clock time")
 	c.Assume("the statement's 'coverage-guided and random generation' is replaced by the complete decode tree x a configuration lattice")
+}
+
+// c12RunBackstop calls cpu.Run so that a Run which spins without touching memory (where the access-count
+// watchdog cannot see it) still ends the check: Run gets a cancellable context, and when it has not returned
+// after c12Backstop - for programs of a few instructions - the case is reported as stuck, the context is
+// cancelled, and an abandoned goroutine is the worst that remains. After two stuck cases further calls are
+// not made (they return at once, unjudged), so a tree that hangs everywhere costs two backstops, not hundreds.
+const c12Backstop = 30 * time.Second
+
+var c12StuckCount int32
+
+var errC12Skipped = fmt.Errorf("not run: two earlier Run calls of this check did not return")
+
+func c12RunBackstop(cpu *z80.CPU) (err error, pan interface{}, stuck bool) {
+	if atomic.LoadInt32(&c12StuckCount) >= 2 {
+		return errC12Skipped, nil, false
+	}
+	ctx, cancel := context.WithCancel(bgCtx)
+	defer cancel()
+	type res struct {
+		err error
+		pan interface{}
+	}
+	done := make(chan res, 1)
+	go func() {
+		var r res
+		defer func() {
+			if p := recover(); p != nil {
+				r.pan = p
+			}
+			done <- r
+		}()
+		r.err = cpu.Run(ctx)
+	}()
+	t := time.NewTimer(c12Backstop)
+	defer t.Stop()
+	select {
+	case r := <-done:
+		return r.err, r.pan, false
+	case <-t.C:
+	}
+	atomic.AddInt32(&c12StuckCount, 1)
+	cancel()
+	select {
+	case <-done:
+	case <-time.After(5 * time.Second):
+	}
+	return nil, nil, true
 }
 
 func replayC12(c *Ctx, raw []byte) []string {
